@@ -211,4 +211,9 @@ theorem rpfc_range_models_match_source_text :
     Generated.body_RPFCIter_next = SourceText.body_RPFCIter_next ∧
     Generated.body_RPFCIter_decodeNext = SourceText.body_RPFCIter_decodeNext := ⟨rfl, rfl, rfl, rfl⟩
 
+/-- The FMINDEX `extractPrefix` model was written against the current text of the C++ functions it mirrors. -/
+theorem fm_extract_prefix_models_match_source_text :
+    Generated.body_FMINDEX_extractPrefix = SourceText.body_FMINDEX_extractPrefix ∧
+    Generated.body_FMIter_next = SourceText.body_FMIter_next := ⟨rfl, rfl⟩
+
 end CSD.Props.C04
